@@ -163,7 +163,19 @@ def run_shard(rec, tier, seed, shard, nshards):
                         continue
                     _ = [(int(v.plate_id), str(v.plate_name), int(v.n_plates)) for v in views]
                     i_, j_ = (int(x) for x in rng.choice(len(views), size=2, replace=False))
+                    # selections taken INSIDE the plate views before the merge (every row / some rows of the view): a
+                    # selection of a selection is a row set of its own, it does not follow the outer view when that grows
+                    inner = []
+                    for v in views:
+                        for full_ in (True, False):
+                            m_ = np.ones(v.size, dtype=bool) if full_ else (rng.random(v.size) < 0.6)
+                            sv_ = v.subset(m_)
+                            inner.append((sv_, tuple(int(x) for x in np.flatnonzero(np.asarray(v.selection_vector))[m_]), full_))
                     views[i_].merge(views[j_])
+                    for sv_, rows_then, full_ in inner:
+                        rec.count("nodes_checked")
+                        rec.count("inner_selections_held_across_a_merge")
+                        check_view(rec, sv_, Q, rows_then, "a selection of %s rows of a plate view, held while plates were merged" % ("all" if full_ else "some"), light=True)
                     rec.count("plate_views_rechecked_after_merge", len(views))
                     for v in views:
                         rows_ = np.flatnonzero(np.asarray(v.selection_vector))
